@@ -284,6 +284,18 @@ let run_case (fields : string list) : string =
     let f = fsys_of_arg fs and c = str_of_hex contents in
     alternatives (List.map (fun (op, os, os2, oi) ->
         show_outcome_class (generate join cfg op os os2 oi scan_limit_parser_parse scan_limit_assembler_assemble f c)) strategies)
+  | "plain_tree" :: evu :: evw :: sfu :: sfw :: nsu :: nsw :: nonseq :: buffer :: _ ->
+    let cfg = config_of_args evu evw sfu sfw nsu nsw in
+    let rec show (t : ptree) : string =
+      match t with
+      | PT_line l -> "L" ^ hex_of_str l
+      | PT_word (ev, l) -> "W" ^ hex_of_str ev.ev_pattern ^ ":" ^ hex_of_str l
+      | PT_alt xs -> "A" ^ string_of_int (List.length xs) ^ "(" ^ String.concat "," (List.map show xs) ^ ")"
+      | PT_cat (a, b) -> "K(" ^ show a ^ "," ^ show b ^ ")" in
+    (match plain_tree (strs_of_arg nonseq) cfg scan_limit_assembler_assemble (str_of_hex buffer) with
+     | None -> "UNDEF"
+     | Some None -> "NOTHING"
+     | Some (Some t) -> show t)
   | "equiv" :: excl :: fuel :: r1 :: r2 :: _ ->
     let ex = if excl = "." then [] else List.map (fun t -> n_of_int (int_of_string t)) (String.split_on_char ',' excl) in
     show_verdict (equivalent ex (nat_of_int (int_of_string fuel)) (re_of_arg r1) (re_of_arg r2))
